@@ -325,16 +325,18 @@ namespace ref
     {
         enum
         {
-            W = 24
+            MAXW = 512,
+            W = 24 // default width (the BFS layers: prompt 2 + line <= 4 + '^C')
         };
-        char row[W];
+        char row[MAXW];
+        int w = W; // columns in use; the large-capacity checks widen it to prompt + cap + margin
         int col = 0;
         int st = 0; // 0 ground, 1 ESC, 2 CSI
         int num = 0;
         bool havenum = false;
         std::string bad;
 
-        Screen() { memset(row, ' ', W); }
+        Screen() { memset(row, ' ', MAXW); }
         void put(unsigned char c)
         {
             switch (st)
@@ -345,7 +347,7 @@ namespace ref
                 else if (c == '\r')
                     col = 0;
                 else if (c == '\n')
-                    memset(row, ' ', W);
+                    memset(row, ' ', (size_t)w);
                 else if (c == 8)
                 {
                     if (col > 0)
@@ -353,7 +355,7 @@ namespace ref
                 }
                 else if (c >= 0x20 && c < 0x7f)
                 {
-                    if (col >= W)
+                    if (col >= w)
                     {
                         if (bad.empty())
                             bad = "output beyond the right margin";
@@ -393,11 +395,11 @@ namespace ref
                     if (c == 'D')
                         col = col - n < 0 ? 0 : col - n;
                     else if (c == 'C')
-                        col = col + n > W - 1 ? W - 1 : col + n;
+                        col = col + n > w - 1 ? w - 1 : col + n;
                     else if (c == 'K')
                     {
-                        if (col < W)
-                            memset(row + col, ' ', W - col);
+                        if (col < w)
+                            memset(row + col, ' ', (size_t)(w - col));
                     }
                     else if (bad.empty())
                         bad = std::string("unmodelled sequence ESC [ ") + (char)c;
@@ -412,14 +414,14 @@ namespace ref
         }
         std::string text() const
         {
-            int e = W;
+            int e = w;
             while (e > 0 && row[e - 1] == ' ')
                 e--;
             return std::string(row, (size_t)e);
         }
         std::string key() const
         {
-            std::string k(row, W);
+            std::string k(row, (size_t)w);
             k += (char)('0' + col);
             k += (char)('0' + st);
             return k;
